@@ -16,3 +16,440 @@ Definition channels_agree (cs : list (list chan)) : Prop := forall a b, In a cs 
 Definition numeric (SRs : list val) : Prop := Forall (fun v => exists q, v = VNum q) SRs.
 
 (* ---- lemmas: to be proved (see Props/C07.v for the exact statements needed) ---- *)
+
+(* ================= generic insertion sort under a total, transitive, antisymmetric boolean order ================= *)
+Section GSort.
+Context {A : Type} (leb : A -> A -> bool).
+
+Fixpoint g_insert (x : A) (l : list A) : list A :=
+  match l with [] => [x] | y :: t => if leb x y then x :: l else y :: g_insert x t end.
+Definition g_sort (l : list A) : list A := fold_right g_insert [] l.
+
+Hypothesis leb_total : forall a b, leb a b = true \/ leb b a = true.
+Hypothesis leb_trans : forall a b c, leb a b = true -> leb b c = true -> leb a c = true.
+Hypothesis leb_antisym : forall a b, leb a b = true -> leb b a = true -> a = b.
+
+Let lt := fun a b => leb a b = true.
+
+Lemma g_insert_perm x l : Permutation (x :: l) (g_insert x l).
+Proof.
+  induction l as [|y t IH]; cbn [g_insert]; [apply Permutation_refl|].
+  destruct (leb x y) eqn:E; [apply Permutation_refl|].
+  eapply perm_trans; [apply perm_swap|]. apply perm_skip. exact IH.
+Qed.
+
+Lemma g_sort_perm l : Permutation l (g_sort l).
+Proof.
+  induction l as [|x t IH]; cbn [g_sort fold_right]; [constructor|].
+  eapply perm_trans; [apply perm_skip; exact IH|]. apply g_insert_perm.
+Qed.
+
+Lemma g_insert_sorted x l : StronglySorted lt l -> StronglySorted lt (g_insert x l).
+Proof.
+  induction l as [|y t IH]; intro S; cbn [g_insert].
+  - constructor; constructor.
+  - inversion S as [|y' t' St Fy]; subst.
+    destruct (leb x y) eqn:E.
+    + constructor; [exact S|]. constructor; [exact E|].
+      eapply Forall_impl; [|exact Fy]. intros z Hz. unfold lt in *. eapply leb_trans; eauto.
+    + constructor; [apply IH; exact St|].
+      rewrite Forall_forall in *. intros z Hz.
+      assert (In z (x :: t)) as Hz'.
+      { eapply Permutation_in; [apply Permutation_sym; apply g_insert_perm|exact Hz]. }
+      destruct Hz' as [<-|Hz'].
+      * unfold lt. destruct (leb_total x y) as [H|H]; [congruence|exact H].
+      * apply Fy. exact Hz'.
+Qed.
+
+Lemma g_sort_sorted l : StronglySorted lt (g_sort l).
+Proof.
+  induction l as [|x t IH]; cbn [g_sort fold_right]; [constructor|].
+  apply g_insert_sorted. exact IH.
+Qed.
+
+Lemma sorted_perm_eq l : forall l', StronglySorted lt l -> StronglySorted lt l' -> Permutation l l' -> l = l'.
+Proof.
+  induction l as [|a l IH]; intros [|b l'] S S' P.
+  - reflexivity.
+  - apply Permutation_nil in P. discriminate.
+  - apply Permutation_sym, Permutation_nil in P. discriminate.
+  - inversion S as [|? ? Sl Fa]; subst. inversion S' as [|? ? Sl' Fb]; subst.
+    assert (a = b) as Hab.
+    { assert (In a (b :: l')) as Ia by (eapply Permutation_in; [exact P|left; reflexivity]).
+      assert (In b (a :: l)) as Ib by (eapply Permutation_in; [apply Permutation_sym; exact P|left; reflexivity]).
+      destruct Ia as [Ia|Ia]; [congruence|]. destruct Ib as [Ib|Ib]; [congruence|].
+      rewrite Forall_forall in Fa, Fb. apply leb_antisym; [apply Fa; exact Ib| apply Fb; exact Ia]. }
+    subst b. f_equal. apply IH; auto. eapply Permutation_cons_inv; exact P.
+Qed.
+
+Lemma g_sort_eq_iff l l' : g_sort l = g_sort l' <-> Permutation l l'.
+Proof.
+  split; intro H.
+  - eapply perm_trans; [apply g_sort_perm|]. rewrite H. apply Permutation_sym, g_sort_perm.
+  - apply sorted_perm_eq; try apply g_sort_sorted.
+    eapply perm_trans; [apply Permutation_sym, g_sort_perm|].
+    eapply perm_trans; [exact H|]. apply g_sort_perm.
+Qed.
+
+Lemma g_sort_eq_sorted l r : StronglySorted lt r -> (g_sort l = r <-> Permutation l r).
+Proof.
+  intro Sr. split; intro H.
+  - rewrite <- H. apply g_sort_perm.
+  - apply sorted_perm_eq; [apply g_sort_sorted|exact Sr|].
+    eapply perm_trans; [apply Permutation_sym, g_sort_perm|exact H].
+Qed.
+End GSort.
+
+(* ================= boolean equalities ================= *)
+Lemma list_eqb_spec {A} (eqb : A -> A -> bool) (H : forall a b, eqb a b = true <-> a = b) :
+  forall l l', list_eqb eqb l l' = true <-> l = l'.
+Proof.
+  induction l as [|x l IH]; intros [|y l']; cbn [list_eqb]; split; intro E; try reflexivity; try discriminate.
+  - apply andb_true_iff in E as [E1 E2]. apply H in E1. apply IH in E2. congruence.
+  - inversion E; subst. apply andb_true_iff. split; [apply H; reflexivity|apply IH; reflexivity].
+Qed.
+
+Lemma str_eqb_spec a b : str_eqb a b = true <-> a = b.
+Proof.
+  unfold str_eqb. destruct (list_eq_dec ascii_dec a b) as [e|n]; split; intro H; auto; try discriminate; try contradiction.
+Qed.
+
+Lemma chan_eqb_spec a b : chan_eqb a b = true <-> a = b.
+Proof.
+  destruct a as [x|x], b as [y|y]; cbn [chan_eqb]; split; intro H; try discriminate.
+  - apply Z.eqb_eq in H. congruence.
+  - inversion H; subst. apply Z.eqb_refl.
+  - apply str_eqb_spec in H. congruence.
+  - inversion H; subst. apply str_eqb_spec. reflexivity.
+Qed.
+
+(* ================= the string order ================= *)
+Lemma nat_of_ascii_inj a b : nat_of_ascii a = nat_of_ascii b -> a = b.
+Proof.
+  intro H. rewrite <- (ascii_nat_embedding a), <- (ascii_nat_embedding b), H. reflexivity.
+Qed.
+
+Lemma str_ltb_asym : forall a b, str_ltb a b = true -> str_ltb b a = false.
+Proof.
+  induction a as [|x a IH]; intros [|y b] H; cbn [str_ltb] in *; try reflexivity; try discriminate.
+  destruct (Nat.ltb_spec (nat_of_ascii x) (nat_of_ascii y)) as [L1|L1];
+  destruct (Nat.ltb_spec (nat_of_ascii y) (nat_of_ascii x)) as [L2|L2]; try reflexivity; try discriminate; try lia.
+  apply IH. exact H.
+Qed.
+
+Lemma str_ltb_antisym : forall a b, str_ltb a b = false -> str_ltb b a = false -> a = b.
+Proof.
+  induction a as [|x a IH]; intros [|y b] H1 H2; cbn [str_ltb] in *; try reflexivity; try discriminate.
+  destruct (Nat.ltb_spec (nat_of_ascii x) (nat_of_ascii y)) as [L1|L1];
+  destruct (Nat.ltb_spec (nat_of_ascii y) (nat_of_ascii x)) as [L2|L2]; try discriminate.
+  assert (x = y) as -> by (apply nat_of_ascii_inj; lia).
+  f_equal. apply IH; assumption.
+Qed.
+
+Lemma str_ltb_cotrans : forall a b c, str_ltb c a = true -> str_ltb b a = true \/ str_ltb c b = true.
+Proof.
+  induction a as [|x a IH]; intros b c H.
+  - destruct c; discriminate.
+  - destruct c as [|z c]; destruct b as [|y b]; cbn [str_ltb] in *; auto.
+    destruct (Nat.ltb_spec (nat_of_ascii z) (nat_of_ascii x)) as [L1|L1];
+    destruct (Nat.ltb_spec (nat_of_ascii x) (nat_of_ascii z)) as [L2|L2];
+    destruct (Nat.ltb_spec (nat_of_ascii y) (nat_of_ascii x)) as [L3|L3];
+    destruct (Nat.ltb_spec (nat_of_ascii x) (nat_of_ascii y)) as [L4|L4];
+    destruct (Nat.ltb_spec (nat_of_ascii z) (nat_of_ascii y)) as [L5|L5];
+    destruct (Nat.ltb_spec (nat_of_ascii y) (nat_of_ascii z)) as [L6|L6];
+    auto; try discriminate; try lia.
+Qed.
+
+Lemma chan_leb_total a b : chan_leb a b = true \/ chan_leb b a = true.
+Proof.
+  destruct a as [x|x], b as [y|y]; cbn [chan_leb]; auto.
+  - destruct (Z.leb_spec x y); [left; reflexivity|right; apply Z.leb_le; lia].
+  - destruct (str_ltb y x) eqn:E; [right; rewrite (str_ltb_asym _ _ E); reflexivity|left; reflexivity].
+Qed.
+
+Lemma chan_leb_trans a b c : chan_leb a b = true -> chan_leb b c = true -> chan_leb a c = true.
+Proof.
+  destruct a as [x|x], b as [y|y], c as [z|z]; cbn [chan_leb]; intros H1 H2; auto; try discriminate.
+  - apply Z.leb_le in H1, H2. apply Z.leb_le. lia.
+  - apply negb_true_iff in H1, H2. apply negb_true_iff.
+    destruct (str_ltb z x) eqn:E; [|reflexivity].
+    destruct (str_ltb_cotrans x y z E) as [H|H]; congruence.
+Qed.
+
+Lemma chan_leb_antisym a b : chan_leb a b = true -> chan_leb b a = true -> a = b.
+Proof.
+  destruct a as [x|x], b as [y|y]; cbn [chan_leb]; intros H1 H2; try discriminate.
+  - apply Z.leb_le in H1, H2. f_equal. lia.
+  - apply negb_true_iff in H1, H2. f_equal. apply str_ltb_antisym; assumption.
+Qed.
+
+Lemma chan_insert_g c l : chan_insert c l = g_insert chan_leb c l.
+Proof. induction l as [|d t IH]; cbn [chan_insert g_insert]; [reflexivity|]. rewrite IH. reflexivity. Qed.
+
+Lemma sort_chans_g l : sort_chans l = g_sort chan_leb l.
+Proof.
+  induction l as [|c t IH]; [reflexivity|].
+  unfold sort_chans, g_sort in *. cbn [fold_right]. rewrite IH. apply chan_insert_g.
+Qed.
+
+Lemma sort_chans_eq_iff a b : sort_chans a = sort_chans b <-> Permutation a b.
+Proof.
+  rewrite !sort_chans_g.
+  apply (g_sort_eq_iff chan_leb chan_leb_total chan_leb_trans chan_leb_antisym).
+Qed.
+
+Lemma sorter_perm : forall a b,
+  list_eqb chan_eqb (sort_chans a) (sort_chans b) = true <-> Permutation a b.
+Proof.
+  intros a b. rewrite (list_eqb_spec chan_eqb chan_eqb_spec). apply sort_chans_eq_iff.
+Qed.
+
+(* ================= positions ================= *)
+Lemma Zleb_total a b : (a <=? b)%Z = true \/ (b <=? a)%Z = true.
+Proof. destruct (Z.leb_spec a b); [left; reflexivity|right; apply Z.leb_le; lia]. Qed.
+Lemma Zleb_trans a b c : (a <=? b)%Z = true -> (b <=? c)%Z = true -> (a <=? c)%Z = true.
+Proof. intros H1 H2. apply Z.leb_le in H1, H2. apply Z.leb_le. lia. Qed.
+Lemma Zleb_antisym a b : (a <=? b)%Z = true -> (b <=? a)%Z = true -> a = b.
+Proof. intros H1 H2. apply Z.leb_le in H1, H2. lia. Qed.
+
+Lemma z_insert_g c l : z_insert c l = g_insert Z.leb c l.
+Proof. induction l as [|d t IH]; cbn [z_insert g_insert]; [reflexivity|]. rewrite IH. reflexivity. Qed.
+
+Lemma sort_Z_g l : sort_Z l = g_sort Z.leb l.
+Proof.
+  induction l as [|c t IH]; [reflexivity|].
+  unfold sort_Z, g_sort in *. cbn [fold_right]. rewrite IH. apply z_insert_g.
+Qed.
+
+Lemma range_sorted n : forall a,
+  StronglySorted (fun x y => (x <=? y)%Z = true) (map (fun k => (Z.of_nat k + 1)%Z) (List.seq a n)).
+Proof.
+  induction n as [|n IH]; intro a; cbn [List.seq map]; constructor; [apply IH|].
+  rewrite Forall_forall. intros z Hz. apply in_map_iff in Hz as (k & <- & Hk). apply in_seq in Hk.
+  apply Z.leb_le. lia.
+Qed.
+
+Lemma sort_Z_range ps n : list_eqb Z.eqb (sort_Z ps) (range1 n) = true <-> Permutation ps (range1 n).
+Proof.
+  rewrite (list_eqb_spec Z.eqb Z.eqb_eq), sort_Z_g.
+  apply (g_sort_eq_sorted Z.leb Zleb_total Zleb_trans Zleb_antisym). apply range_sorted.
+Qed.
+
+Lemma positions_ok_spec : forall ps, positions_ok ps = true <-> (ps = [] \/ gap_free ps).
+Proof.
+  intros [|p t].
+  - split; intros _; [left|]; reflexivity.
+  - unfold gap_free. cbn [positions_ok]. rewrite sort_Z_range. split.
+    + intro H; right; exact H.
+    + intros [H|H]; [discriminate|exact H].
+Qed.
+
+(* ================= checkConsistency ================= *)
+Lemma mapM_sorted {E} (eChans : E -> result (list chan)) : forall l cs,
+  mapM eChans l = Ok cs ->
+  mapM (fun e => do c <- eChans e; Ok (sort_chans c)) l = Ok (map sort_chans cs).
+Proof.
+  induction l as [|x t IH]; intros cs H; cbn [mapM] in *.
+  - inversion H; subst. reflexivity.
+  - destruct (eChans x) as [c|e] eqn:Ex; cbn [bind] in *; [|discriminate].
+    destruct (mapM eChans t) as [r|e] eqn:Et; cbn [bind] in *; [|discriminate].
+    inversion H; subst. rewrite (IH r eq_refl). reflexivity.
+Qed.
+
+Lemma val_eqb_num_sym a b : val_eqb (VNum a) (VNum b) = true -> val_eqb (VNum b) (VNum a) = true.
+Proof. cbn [val_eqb]. rewrite !Qeq_bool_iff. intro H. symmetry. exact H. Qed.
+Lemma val_eqb_num_trans a b c :
+  val_eqb (VNum a) (VNum b) = true -> val_eqb (VNum b) (VNum c) = true -> val_eqb (VNum a) (VNum c) = true.
+Proof. cbn [val_eqb]. rewrite !Qeq_bool_iff. intros H1 H2. rewrite H1. exact H2. Qed.
+
+Lemma rates_spec SRs : numeric SRs -> (all_eq_first val_eqb SRs = true <-> rates_agree SRs).
+Proof.
+  intro Hn. unfold rates_agree, numeric in *. destruct SRs as [|x l]; cbn [all_eq_first].
+  - split; [intros _ a b []|reflexivity].
+  - rewrite forallb_forall. rewrite Forall_forall in Hn. split.
+    + intros H a b Ia Ib.
+      destruct (Hn x (or_introl eq_refl)) as (qx & ->).
+      destruct (Hn a Ia) as (qa & ->). destruct (Hn b Ib) as (qb & ->).
+      eapply val_eqb_num_trans; [apply val_eqb_num_sym; apply H; exact Ia|apply H; exact Ib].
+    + intros H y Iy. apply H; [left; reflexivity|exact Iy].
+Qed.
+
+Lemma last_In {A} (l : list A) d : l <> [] -> In (last l d) l.
+Proof.
+  induction l as [|x t IH]; intro H; [contradiction|].
+  destruct t as [|y t']; [left; reflexivity|].
+  right. change (last (x :: y :: t') d) with (last (y :: t') d). apply IH. discriminate.
+Qed.
+
+Lemma chans_spec cs :
+  forallb (list_eqb chan_eqb (last (map sort_chans cs) [])) (map sort_chans cs) = true <-> channels_agree cs.
+Proof.
+  unfold channels_agree. rewrite forallb_forall. split.
+  - intros H a b Ia Ib. apply sort_chans_eq_iff.
+    assert (forall c, In c cs -> last (map sort_chans cs) [] = sort_chans c) as Hl.
+    { intros c Ic. apply (list_eqb_spec chan_eqb chan_eqb_spec). apply H. apply in_map. exact Ic. }
+    rewrite <- (Hl a Ia). apply Hl. exact Ib.
+  - intros H x Ix. apply (list_eqb_spec chan_eqb chan_eqb_spec).
+    assert (map sort_chans cs <> []) as Hne by (intro E; rewrite E in Ix; destruct Ix).
+    pose proof (last_In (map sort_chans cs) [] Hne) as Il.
+    apply in_map_iff in Il as (a & Ea & Ia). apply in_map_iff in Ix as (b & <- & Ib).
+    rewrite <- Ea. apply sort_chans_eq_iff. apply H; assumption.
+Qed.
+
+Lemma akeys_nil {K V} (l : list (K * V)) : akeys l = [] <-> l = [].
+Proof. destruct l; cbn; split; intro H; try reflexivity; discriminate. Qed.
+
+Lemma pos_spec {E} (s : seqT E) :
+  positions_ok (akeys (sdata s)) = true <-> (sdata s = [] \/ gap_free (akeys (sdata s))).
+Proof. rewrite positions_ok_spec, akeys_nil. reflexivity. Qed.
+
+Lemma check_iff : forall (E : Type) (eSR : E -> result val) (eChans : E -> result (list chan)) (s : seqT E) SRs cs b,
+  mapM eSR (avals (sdata s)) = Ok SRs -> numeric SRs ->
+  mapM eChans (avals (sdata s)) = Ok cs ->
+  check_consistency eSR eChans s = Ok b ->
+  (b = true <-> (rates_agree SRs /\ channels_agree cs /\ (sdata s = [] \/ gap_free (akeys (sdata s))))).
+Proof.
+  intros E eSR eChans s SRs cs b HSR Hnum HCh Hc.
+  unfold check_consistency in Hc.
+  destruct (spec_get s key_sr) as [v|] eqn:Esr; [|discriminate].
+  rewrite HSR in Hc. cbn [bind] in Hc.
+  rewrite (mapM_sorted eChans _ _ HCh) in Hc. cbn [bind] in Hc. cbv zeta in Hc.
+  pose proof (rates_spec SRs Hnum) as HR. pose proof (chans_spec cs) as HC. pose proof (pos_spec s) as HP.
+  destruct (all_eq_first val_eqb SRs) eqn:Er; cbn [negb] in Hc.
+  - destruct (forallb (list_eqb chan_eqb (last (map sort_chans cs) [])) (map sort_chans cs)) eqn:Ec; cbn [negb] in Hc.
+    + inversion Hc; subst. rewrite HP. split.
+      * intro H. split; [apply HR; reflexivity|]. split; [apply HC; reflexivity|exact H].
+      * intros (_ & _ & H). exact H.
+    + inversion Hc; subst. split; [discriminate|]. intros (_ & H & _). apply HC in H. discriminate.
+  - inversion Hc; subst. split; [discriminate|]. intros (H & _). apply HR in H. discriminate.
+Qed.
+
+Lemma check_returns : forall (E : Type) (eSR : E -> result val) (eChans : E -> result (list chan)) (s : seqT E) SRs cs,
+  spec_get s key_sr <> None ->
+  mapM eSR (avals (sdata s)) = Ok SRs -> mapM eChans (avals (sdata s)) = Ok cs ->
+  exists b, check_consistency eSR eChans s = Ok b.
+Proof.
+  intros E eSR eChans s SRs cs Hsr HSR HCh. unfold check_consistency.
+  destruct (spec_get s key_sr) as [v|] eqn:Esr; [|contradiction].
+  rewrite HSR. cbn [bind]. rewrite (mapM_sorted eChans _ _ HCh). cbn [bind]. cbv zeta.
+  destruct (negb (all_eq_first val_eqb SRs)); [eexists; reflexivity|].
+  destruct (negb (forallb (list_eqb chan_eqb (last (map sort_chans cs) [])) (map sort_chans cs)));
+    eexists; reflexivity.
+Qed.
+
+Lemma check_no_rate : forall (E : Type) (eSR : E -> result val) (eChans : E -> result (list chan)) (s : seqT E),
+  spec_get s key_sr = None -> check_consistency eSR eChans s = Err EKey.
+Proof. intros E eSR eChans s H. unfold check_consistency. rewrite H. reflexivity. Qed.
+
+(* ================= the gate: producers behind seq_check ================= *)
+Lemma prepare_check_false s : seq_check s = Ok false -> prepare s = Err EValue.
+Proof. intro H. unfold prepare. rewrite H. reflexivity. Qed.
+Lemma prepare_check_err s e : seq_check s = Err e -> prepare s = Err e.
+Proof. intro H. unfold prepare. rewrite H. reflexivity. Qed.
+
+Lemma pv_awg_prepare_err s e : prepare s = Err e -> forall ix, pv_awg s ix = PErr e.
+Proof. intros H ix. unfold pv_awg, output_awg. rewrite H. reflexivity. Qed.
+Lemma seqx_prepare_err s e : prepare s = Err e -> forall fl, output_seqx s fl = PErr e.
+Proof. intros H fl. unfold output_seqx. rewrite H. reflexivity. Qed.
+
+Lemma gate_inconsistent : forall s,
+  seq_check s = Ok false ->
+  (forall d f t, seq_forge s d f t = Err EValue) /\
+  seq_channels s = Err ESeqConsistency /\
+  (forall t, seq_add s t = Err ESeqConsistency) /\
+  (forall t, seq_check t = Ok true -> seq_add t s = Err ESeqConsistency) /\
+  (forall ps cs ns ars its, repeat_and_vary s ps cs ns ars its = Err ESeqConsistency) /\
+  prepare s = Err EValue /\
+  (forall ix, pv_awg s ix = PErr EValue) /\
+  (forall fl, output_seqx s fl = PErr EValue).
+Proof.
+  intros s H. pose proof (prepare_check_false s H) as HP.
+  repeat split.
+  - intros d f t. unfold seq_forge. rewrite H. reflexivity.
+  - unfold seq_channels. rewrite H. reflexivity.
+  - intro t. unfold seq_add. rewrite H. reflexivity.
+  - intros t Ht. unfold seq_add. rewrite Ht, H. reflexivity.
+  - intros ps cs ns ars its. unfold repeat_and_vary. rewrite H. reflexivity.
+  - exact HP.
+  - apply pv_awg_prepare_err. exact HP.
+  - apply seqx_prepare_err. exact HP.
+Qed.
+
+Lemma gate_error : forall s e,
+  seq_check s = Err e ->
+  (forall d f t, seq_forge s d f t = Err e) /\ seq_channels s = Err e /\ (forall t, seq_add s t = Err e) /\
+  (forall ps cs ns ars its, repeat_and_vary s ps cs ns ars its = Err e) /\ prepare s = Err e /\
+  (forall ix, pv_awg s ix = PErr e) /\ (forall fl, output_seqx s fl = PErr e).
+Proof.
+  intros s e H. pose proof (prepare_check_err s e H) as HP.
+  repeat split.
+  - intros d f t. unfold seq_forge. rewrite H. reflexivity.
+  - unfold seq_channels. rewrite H. reflexivity.
+  - intro t. unfold seq_add. rewrite H. reflexivity.
+  - intros ps cs ns ars its. unfold repeat_and_vary. rewrite H. reflexivity.
+  - exact HP.
+  - apply pv_awg_prepare_err. exact HP.
+  - apply seqx_prepare_err. exact HP.
+Qed.
+
+(* a mapM whose only failure is [er] fails with [er] as soon as one item fails *)
+Lemma mapM_one_err {A B} (f : A -> result B) er : forall l x,
+  (forall a e, f a = Err e -> e = er) -> In x l -> f x = Err er -> mapM f l = Err er.
+Proof.
+  induction l as [|a t IH]; intros x Hf Ix Hx; [destruct Ix|]. cbn [mapM].
+  destruct (f a) as [y|e] eqn:Ea; cbn [bind].
+  - destruct Ix as [->|Ix]; [congruence|]. rewrite (IH x Hf Ix Hx). reflexivity.
+  - rewrite (Hf a e Ea). reflexivity.
+Qed.
+
+Lemma missing_amplitude : forall s chans ch,
+  seq_check s = Ok true -> first_channels s = Ok chans ->
+  list_eqb Z.eqb (sort_Z (akeys (sseq s))) (range1 (length (sdata s))) = true ->
+  In ch chans -> spec_get s (key_amp ch) = None ->
+  prepare s = Err EKey /\ (forall ix, pv_awg s ix = PErr EKey) /\ (forall fl, output_seqx s fl = PErr EKey).
+Proof.
+  intros s chans ch Hc Hf Hl Ich Hamp.
+  assert (prepare s = Err EKey) as HP.
+  { unfold prepare. rewrite Hc. cbn [bind negb]. rewrite Hf. cbn [bind]. cbv zeta. rewrite Hl. cbn [negb].
+    rewrite (mapM_one_err (fun ch0 => match spec_get s (key_amp ch0) with Some _ => Ok tt | None => Err EKey end)
+               EKey chans ch).
+    - reflexivity.
+    - intros a e. destruct (spec_get s (key_amp a)); congruence.
+    - exact Ich.
+    - rewrite Hamp. reflexivity. }
+  split; [exact HP|]. split; [apply pv_awg_prepare_err; exact HP|apply seqx_prepare_err; exact HP].
+Qed.
+
+Lemma bad_sequencing_keys : forall s,
+  seq_check s = Ok true -> (exists chans, first_channels s = Ok chans) ->
+  list_eqb Z.eqb (sort_Z (akeys (sseq s))) (range1 (length (sdata s))) = false ->
+  prepare s = Err EValue /\ (forall ix, pv_awg s ix = PErr EValue) /\ (forall fl, output_seqx s fl = PErr EValue).
+Proof.
+  intros s Hc (chans & Hf) Hl.
+  assert (prepare s = Err EValue) as HP.
+  { unfold prepare. rewrite Hc. cbn [bind negb]. rewrite Hf. cbn [bind]. cbv zeta. rewrite Hl. reflexivity. }
+  split; [exact HP|]. split; [apply pv_awg_prepare_err; exact HP|apply seqx_prepare_err; exact HP].
+Qed.
+
+Lemma missing_offset : forall s chans els ch,
+  prepare s = Ok (chans, els) -> In ch chans -> spec_get s (key_off ch) = None ->
+  forall ix, pv_awg s ix = PErr EValue.
+Proof.
+  intros s chans els ch HP Ich Hoff ix. unfold pv_awg, output_awg. rewrite HP. cbn [bind]. cbv zeta.
+  rewrite (mapM_one_err (fun ch0 => match spec_get s (key_off ch0) with Some _ => Ok tt | None => Err EValue end)
+             EValue chans ch).
+  - reflexivity.
+  - intros a e. destruct (spec_get s (key_off a)); congruence.
+  - exact Ich.
+  - rewrite Hoff. reflexivity.
+Qed.
+
+Lemma consistency_example :
+  positions_ok [2; 1]%Z = true /\ positions_ok [1; 3]%Z = false /\ gap_free [3; 1; 2]%Z /\
+  list_eqb chan_eqb (sort_chans [CStr (S_ "A"); CInt 2; CInt 1]) (sort_chans [CInt 1; CStr (S_ "A"); CInt 2]) = true.
+Proof.
+  split; [vm_compute; reflexivity|]. split; [vm_compute; reflexivity|]. split.
+  - assert (positions_ok [3; 1; 2]%Z = true) as H by (vm_compute; reflexivity).
+    apply positions_ok_spec in H as [H|H]; [discriminate|exact H].
+  - vm_compute. reflexivity.
+Qed.
